@@ -2652,23 +2652,24 @@ bool table_has_caption(token * t) {
 		if (t->type == PAIR_BRACKET) {
 			t = t->next;
 
-			if (t && t->next &&
-					t->next->type == PAIR_BRACKET) {
+			// Optional label -- `[caption][label]` or `[caption] [label]`
+			if (t && t->type == PAIR_BRACKET) {
+				t = t->next;
+			} else if (t && t->next &&
+					   t->next->type == PAIR_BRACKET) {
+				t = t->next->next;
+			}
+
+			// Optional line ending
+			if (t &&
+					((t->type == TEXT_NL) ||
+					 (t->type == TEXT_LINEBREAK))) {
 				t = t->next;
 			}
 
+			// Anything else on the line means this is not a caption
+			// (it would be dropped from the output)
 			if (t == NULL) {
-				// End of file
-				return true;
-			}
-
-			if (t && t->next &&
-					((t->next->type == TEXT_NL) ||
-					 (t->next->type == TEXT_LINEBREAK))) {
-				t = t->next;
-			}
-
-			if (t && t->next == NULL) {
 				return true;
 			}
 		}
